@@ -161,9 +161,11 @@ CLAIMED = {
              "containers naming it as base, each once, in table order, all other fields untouched). End to end for loadXtce: "
              "dangling_type_ref_is_load_failure, dangling_base_is_load_failure, dangling_parameter_entry_is_load_failure (a "
              "document with such a reference fails at load, whatever else it contains; via foldlM_fails, "
-             "unparsable_container_rejected_doc, container_set_failure_is_load_failure). Not proved: rejection of dangling "
-             "ContainerRefEntry references (needs the invariant that the lookup only holds parsed containers), of duplicates "
-             "and of cycles end to end — decided by the correspondence (all single-point corruptions of generated documents, "
+             "unparsable_container_rejected_doc, container_set_failure_is_load_failure), and "
+             "duplicate_names_are_load_failures (two parameter types or two parameters with one name - used by a container or "
+             "not - make from_xtce fail). Not proved: rejection of dangling "
+             "ContainerRefEntry references (needs the invariant that the lookup only holds parsed containers), of duplicate "
+             "containers and of cycles end to end — decided by the correspondence (all single-point corruptions of generated documents, "
              "also aimed at declared-but-unused parameters) with an independent oracle over the document tree; object "
              "identity is checked with `is` on the real graph.",
         design="§7 C17", technique="Lean 4 proof (fold invariants) + corruption-sweep correspondence check"),
